@@ -11,7 +11,8 @@ ASSUMPTIONS = ["A2 segyio reports the source headers", "get_tracefield_values on
 RULE = ("generated SEG-Y (regular / irregular / 2D; header plans: constant, varying, duplicate-of, varying-but-coinciding at "
         "first&last, 2- and 4-byte extremes, negative; trace counts incl. multiples of 128) x detection modes {heuristic, "
         "thorough, exhaustive, strip}: all 89 fields of every trace via gen_trace_header / header[i] / tracefield arrays vs "
-        "segyio on the source, file header bytes; NumPy route: header dicts of any integer dtype / field set")
+        "segyio on the source, file header bytes; NumPy route: header dicts of any integer dtype / field set"
+        "; K: Model/Headers.classify (table rows, stored fields, array count from the first and last trace) vs the table bytes written in heuristic mode")
 
 MODES = ['thorough', 'exhaustive', 'heuristic', 'strip']
 
